@@ -75,8 +75,12 @@ func genDoc(t *rapid.T) *docModel {
 	m := &docModel{}
 	var proofLeaves, piLeaves, vdLeaves []leafKV
 	var proofSites, vdSites []docSite
+	forceZero := false
 	num := func(name string, path []any, into *[]leafKV, sites *[]docSite, doc string) json.Number {
 		v := genU64().Draw(t, "n")
+		if forceZero {
+			v = 0
+		}
 		*into = append(*into, leafKV{name, new(big.Int).SetUint64(v)})
 		*sites = append(*sites, docSite{Doc: doc, Path: append([]any{}, path...), Leaf: len(*into) - 1})
 		return json.Number(fmt.Sprint(v))
@@ -97,7 +101,17 @@ func genDoc(t *rapid.T) *docModel {
 	}
 	extList := func(name string, path []any, k int) []any {
 		l := make([]any, k)
+		// one list in four ends in 1..3 all-zero elements (and one in eight starts with some): zeros are numbers too
+		zeroTail, zeroHead := 0, 0
+		if k > 0 && rapid.IntRange(0, 3).Draw(t, "zero_tail") == 0 {
+			zeroTail = rapid.IntRange(1, 3).Draw(t, "tail")
+		}
+		if k > 0 && rapid.IntRange(0, 7).Draw(t, "zero_head") == 0 {
+			zeroHead = rapid.IntRange(1, 2).Draw(t, "head")
+		}
+		defer func() { forceZero = false }()
 		for i := range l {
+			forceZero = i >= k-zeroTail || i < zeroHead
 			a := num(fmt.Sprintf("%s_%d_0_Limb", name, i), append(path, i, 0), &proofLeaves, &proofSites, "proof")
 			b := num(fmt.Sprintf("%s_%d_1_Limb", name, i), append(path, i, 1), &proofLeaves, &proofSites, "proof")
 			l[i] = []any{a, b}
@@ -430,7 +444,7 @@ func TestC19(t *testing.T) {
 	s := newSuite("C19")
 	r := s.r
 	defer r.Flush()
-	r.Rule("model-generated proof / verifier-data documents with random shapes (cap sizes 0..17, 0..4 query rounds, 0..5 eval proofs of leaf width 0..12, 0..3 steps with 0..17 evaluations, sibling counts 0..13, opening lists 0..9, 0..20 public inputs) and values (64-bit numbers incl. >= p and 2^64-1; decimal hash strings incl. r-1, r, values up to 2^260) are read with the repository's readers and compared leaf by leaf (name and value, in schema order) with the model; single-value edits must change exactly that leaf; single-value corruptions from the listed classes (non-numeric / non-decimal string, negative, fractional, >= 2^64 number, scalar where a list is expected, number where a string is expected) must be refused at read, deserialise or witness time; random common-circuit-data documents must arrive field by field; histories: 2..4 documents are read (byte readers or path readers) before any is deserialised, then deserialised in a drawn order, each assignment must carry exactly its own document's numbers.  Non-trivial = document with at least 8 numbers; distinct = document.")
+	r.Rule("model-generated proof / verifier-data documents with random shapes (cap sizes 0..17, 0..4 query rounds, 0..5 eval proofs of leaf width 0..12, 0..3 steps with 0..17 evaluations, sibling counts 0..13, opening lists 0..9, 0..20 public inputs) and values (64-bit numbers incl. >= p and 2^64-1; lists ending or starting in all-zero elements; decimal hash strings incl. r-1, r, values up to 2^260) are read with the repository's readers and compared leaf by leaf (name and value, in schema order) with the model; single-value edits must change exactly that leaf; single-value corruptions from the listed classes (non-numeric / non-decimal string, negative, fractional, >= 2^64 number, scalar where a list is expected, number where a string is expected) must be refused at read, deserialise or witness time; random common-circuit-data documents must arrive field by field; histories: 2..4 documents are read (byte readers or path readers) before any is deserialised, then deserialised in a drawn order, each assignment must carry exactly its own document's numbers.  Non-trivial = document with at least 8 numbers; distinct = document.")
 	r.Assume("signed decimal strings and JSON null are outside the listed corruption classes and are not generated")
 	s.on("faithful", func(b json.RawMessage) caseResult { return c19Faithful(unmarshal[c19Doc](b)) })
 	s.on("corrupt", func(b json.RawMessage) caseResult { return c19CorruptRun(unmarshal[c19Corrupt](b)) })
